@@ -195,8 +195,7 @@ AB5 = bytes([0x00, 0x18]) + NAME16 + bytes([0x00, 0x04, 0x17, 0x1D, 0x10, 0x1F, 
 
 # valid UTF-8 texts a permissive or "helpful" text decoder treats specially: byte-order mark first / inside, zero-width and
 # combining characters, 4-byte characters, the edges of the surrogate gap, non-characters, control characters, leading / trailing blanks
-TEXTS = [t.encode() for t in ("\ufeffKids", "K\ufeffid", "\ufeff", "\u200bZone", "e\u0301t\u00e9", "\U0001F3E0", "\ud7ff\ue000", "\ufffd\ufffe",
-                              " Lead", "Trail ", "\tTab", "a\nb", "\x7f", "\x01", "\u0085x", "\u00a0x", "\u2028x")]
+TEXTS = codec.AWKWARD_TEXTS
 
 
 def status_cases(real, rng):
